@@ -152,7 +152,7 @@ impl Property for C07 {
     fn required_classes(&self, _tier: Tier) -> Vec<String> {
         ["branch:n1-square", "branch:n1-nonsquare", "ark:hash_to_curve", "min:hash_to_curve", "order-checked"].iter().map(|s| s.to_string()).collect()
     }
-    fn extra_coverage(&self, classes: &std::collections::BTreeMap<String, u64>, cov: &mut serde_json::Map<String, serde_json::Value>) {
+    fn extra_coverage(&self, classes: &mut std::collections::BTreeMap<String, u64>, cov: &mut serde_json::Map<String, serde_json::Value>) {
         let s = classes.get("branch:n1-square").copied().unwrap_or(0) as f64;
         let n = classes.get("branch:n1-nonsquare").copied().unwrap_or(0) as f64;
         if s + n > 0.0 {
